@@ -530,7 +530,9 @@ inline BatchResult runBatch(const Options& opt, uint64_t nRuns, const RunFn& fn,
                 if (deadline > 0 && wallNow() > deadline) { flush(); detail::writeAll(out, "C\n"); break; }
                 detail::writeAll(out, "S " + std::to_string(run) + "\n");
                 RunReport rep;
+                alarm(300);   // watchdog (real time, used for nothing else): a run that does not end kills its worker with SIGALRM
                 fn(run, rep);
+                alarm(0);
                 for (auto& kv : rep.counters) acc[kv.first] += kv.second;
                 simT += rep.simTime;
                 ++nAcc;
@@ -727,6 +729,7 @@ inline ChildResult execReplay(const Options& opt, const std::string& file, const
         dup2(pfd[1], 1);
         int dn = open(errPath.c_str(), O_WRONLY | O_CREAT | O_TRUNC, 0644);
         if (dn >= 0) dup2(dn, 2);
+        alarm(300);   // survives the exec: a replay that does not end is killed with SIGALRM and classified as signal:14
         std::vector<std::string> args = {opt.self, "--replay", file, "--property", opt.property, "--flavour", opt.flavour};
         if (!opt.mode.empty()) { args.push_back("--mode"); args.push_back(opt.mode); }
         for (auto& a : extraArgs) args.push_back(a);
